@@ -84,14 +84,6 @@ theorem sound_and {f} (hCmp : SLevel parseCompare .cmp f) (hAnd : SLevel parseLo
         have : tk (pre1 ++ t :: pre2) = tk pre1 ++ t.tok :: tk pre2 := by simp [tk]
         rw [this]; exact .andBin hd1 htk hd2
 
-/-- the operator selection of `parseCompareBinOp` is `cmpOf` -/
-theorem cmp_match_eq (k : TokKind) :
-    (match k with
-      | .less => some CmpKind.less | .lessEq => some .lessEq | .greater => some .greater
-      | .greaterEq => some .greaterEq | .eq => some .eq | .notEq => some .notEq
-      | _ => none) = cmpOf k := by
-  cases k <;> rfl
-
 theorem sound_cmp {f} (hPre : SLevel parsePrefix .unary f) (hCmp : SLevel parseCompare .cmp f) :
     SLevel parseCompare .cmp (f + 1) := by
   intro ts e rest hE h
